@@ -52,6 +52,21 @@ def run_shard(prop: str, tier: str, seed: int, shard: int, nshards: int, out: st
     ctx = Ctx(prop, tier, seed, shard, nshards)
     try:
         mod.run(ctx)
+    except Exception as ex:
+        # An exception that escapes an unguarded workload call: if it was RAISED INSIDE the library (innermost frame in
+        # the peptacular package) the library rejected an input the workload knows to be valid, or broke on its own
+        # earlier output - that is a verdict on the case in hand, not a harness failure. Anything raised in vf's own
+        # code stays a crash of the shard (exit 2, inconclusive).
+        import traceback
+        frames = traceback.extract_tb(ex.__traceback__)
+        inner = frames[-1].filename if frames else ''
+        if f'{os.sep}peptacular{os.sep}' in inner and f'{os.sep}vf{os.sep}' not in inner:
+            where = [f'{os.path.basename(fr.filename)}:{fr.lineno} {fr.name}' for fr in frames[-4:]]
+            ctx.decided()
+            ctx.violation('library-raised-during-workload', {'exception': f'{type(ex).__name__}: {ex}'[:300],
+                                                             'innermost_frames': where})
+        else:
+            raise
     finally:
         ctx.eng.detach_all()
     with open(out, 'w') as f:
